@@ -93,8 +93,18 @@ def exec_case(prop, case, budget=None):
         R.fail(case.get("k", "?"), "hang", f"{err} ({budget}s)", tags=["hang"])
     except MemoryError:
         R.fail(case.get("k", "?"), "harness-error", "MemoryError", tags=["harness"])
-    except Exception:  # a bug in the harness itself, never silently a pass
-        R.fail(case.get("k", "?"), "harness-error", traceback.format_exc()[-900:], tags=["harness"])
+    except Exception as err:
+        frames = traceback.extract_tb(err.__traceback__)
+        inner = os.path.realpath(frames[-1].filename) if frames else ""
+        if inner.startswith(tree.REPO + os.sep) or os.sep + "numpy" + os.sep in inner:
+            # the exception comes out of the library (or out of numpy called by it) at a point where the case does not
+            # expect one: the behaviour under test failed, which is a violation, not a defect of the harness
+            where = next((f"{f.filename}:{f.lineno}" for f in reversed(frames) if os.path.realpath(f.filename).startswith(VERIF)), "?")
+            R.fail(case.get("k", "?"), "unexpected-exception",
+                   f"{type(err).__name__}: {str(err)[:200]} raised in {inner}:{frames[-1].lineno} (called from {where}); the case could not be completed",
+                   tags=["unexpected-exception"])
+        else:   # a bug in the harness itself, never silently a pass
+            R.fail(case.get("k", "?"), "harness-error", traceback.format_exc()[-900:], tags=["harness"])
     finally:
         signal.setitimer(signal.ITIMER_REAL, 0)
     if not getattr(prop, "OPTIONS_MAY_LEAK", False) and tree.options_leaked():
